@@ -143,7 +143,7 @@ func (r *capReader) Read(p []byte) (int, error) {
 	return 0, io.EOF
 }
 
-func spinCap(n int) int    { return 100000 + 256*n }
+func spinCap(n int) int       { return 100000 + 256*n }
 func allocBound(n int) uint64 { return 1<<20 + 256*uint64(n) }
 
 type outcome struct {
